@@ -35,10 +35,10 @@ Section Glue.
   (* the catalog entries serviceConfig selects for the grouping map [m], in the order their
      commands are appended *)
   Definition selected (rcat : list rentry) (m : smap) : list rentry :=
-    flat_map (fun nk : str * list str =>
+    flat_map (fun nk : str * list ikey =>
                 let (name, keys) := nk in
                 if beq name [] || match keys with [] => true | _ => false end then []
-                else filter (fun r => existsb (beq (inst_key (r_node r) (g_id (r_reg r)))) keys)
+                else filter (fun r => existsb (key_eqb (inst_key (r_node r) (g_id (r_reg r)))) keys)
                             (filter (fun r => beq (g_name (r_reg r)) name) rcat)) m.
 End Glue.
 
@@ -53,12 +53,6 @@ Definition table_builder (pw : str -> outcome wt) (canon : str -> option str) (g
 Definition consistent (checks : list hcheck) (rcat : list rentry) : Prop :=
   forall c r, In c checks -> In r rcat -> c_node c = r_node r -> c_sid c = g_id (r_reg r) ->
               c_tags c = g_tags (r_reg r).
-
-(* outside finding F-C01-1: the key Node.ServiceID determines the instance *)
-Definition keys_injective (checks : list hcheck) (rcat : list rentry) : Prop :=
-  forall c r, In c checks -> In r rcat ->
-              inst_key (c_node c) (c_sid c) = inst_key (r_node r) (g_id (r_reg r)) ->
-              c_node c = r_node r /\ c_sid c = g_id (r_reg r).
 
 (* "the instance is healthy under the configured rule": it has a service check under its
    service name and is [healthy] (Model/ConsulSpec.v) in the unfiltered health state *)
